@@ -292,3 +292,63 @@ impl<Item, Err, O: Observer<Item, Err>> Observer<Item, Err> for WakeBeforeStore<
   }
   fn is_finished(&self) -> bool { self.observer.is_finished() }
 }
+
+// ---------------------------------------------------------------- C04
+/// a two-input operator whose inputs do not share a cell
+pub struct TwoCells<A, B> { a: A, b: B }
+impl<A, B, Item, Err, O> Observable<Item, Err, O> for TwoCells<A, B>
+where
+  O: Observer<Item, Err> + Clone,
+  A: Observable<Item, Err, MutRc<Option<O>>>,
+  B: Observable<Item, Err, MutRc<Option<O>>>,
+{
+  type Unsub = ZipSubscription<A::Unsub, B::Unsub>;
+  fn actual_subscribe(self, observer: O) -> Self::Unsub {
+    let o1 = MutRc::own(Some(observer.clone()));
+    let o2 = MutRc::own(Some(observer));
+    ZipSubscription::new(self.a.actual_subscribe(o1), self.b.actual_subscribe(o2))
+  }
+}
+/// shared observer that terminates downstream without emptying its slot
+pub struct PeekShared<O> { observer: Option<O>, completed_one: bool }
+impl<Item, Err, O> Observer<Item, Err> for MutRc<PeekShared<O>>
+where
+  O: Observer<Item, Err> + Clone,
+{
+  fn next(&mut self, value: Item) {
+    if let Some(o) = self.rc_deref_mut().observer.as_mut() {
+      o.next(value)
+    }
+  }
+  fn error(self, err: Err) {
+    if let Some(o) = self.rc_deref_mut().observer.clone() {
+      o.error(err)
+    }
+  }
+  fn complete(self) {
+    let mut inner = self.rc_deref_mut();
+    inner.completed_one = true;
+    if let Some(o) = inner.observer.take() {
+      o.complete()
+    }
+  }
+  fn is_finished(&self) -> bool {
+    self.rc_deref().observer.as_ref().map_or(true, |o| o.is_finished())
+  }
+}
+/// notifier tick that emits a copy of the gathered value
+pub struct CloneTick<O, V> { observer: O, value: V }
+impl<Item1: Clone, Item2, V, Err, O> Observer<Item2, Err> for CloneTick<O, V>
+where
+  O: Observer<Item1, Err>,
+  V: RcDerefMut<Target = Option<Item1>>,
+{
+  fn next(&mut self, _: Item2) {
+    if let Some(item) = self.value.rc_deref_mut().clone() {
+      self.observer.next(item)
+    }
+  }
+  fn error(self, err: Err) { self.observer.error(err) }
+  fn complete(self) { self.observer.complete() }
+  fn is_finished(&self) -> bool { self.observer.is_finished() }
+}
